@@ -109,6 +109,12 @@ CHECKS = {
             "Exact accept-set model checking of completeness/soundness/tamper-evidence for small lengths; every proof element and verification message of the "
             "generic code recomputed by TLC on three tiny fields; real Prio2 bound at outcome level for lengths up to 257 (quick) / 65535 (thorough).",
             "Tiny-field monomorphizations; k-key rule on the 32-bit field; f0/g0 taken from the observed proof."),
+    "C06": ("DESIGN.md#c06--idpf-reconstruction-and-cache-transparency",
+            "TLA+ spec of the IDPF over an abstract PRG (Idpf.tla); TLC exhaustively checks reconstruction and cache transparency for every history and every "
+            "forgetful cache; trace validation of TLC-generated evaluation histories on the real Idpf with recording cache wrappers",
+            "Exhaustive model checking (2.5M-9.5M states) of reconstruction and cache transparency; every short evaluation history replayed on the real code for "
+            "7 cache kinds and 3 value types with cache hits, results and the reconstruction identity judged by TLC; deep trees by seeded histories.",
+            "PRG opaque; histories enumerated for depth <= 3 (4 in thorough), sampled for deeper trees."),
 }
 
 NOT_YET = {}
